@@ -59,6 +59,12 @@ class AbsSource:
         self.ops.append("bytes")
         raise TypeError("cannot convert 'source' object to bytes")
 
+    def __bool__(self):
+        # the truth value of a byte source depends on what kind of object it is (an empty bytes object is false, an
+        # exhausted iterator is true): testing it is an operation the decoder has no business applying
+        self.ops.append("bool")
+        return True
+
 
 class AbsGenSource(AbsSource):
     """a source that is a generator (what every front-end hands in): it can also be closed, which loses its unread rest"""
